@@ -20,6 +20,7 @@ var graphs = []string{
 	"{c<[s1<i>]>ctc<[n]>}",
 	"[<[t]><[t]>n<[t]>]",
 	"[[tn]s1[b1]]",
+	"{1<[t]>2<[n]>ci}", // sibling keys of different lengths: the solver may make one a prefix of the other
 }
 
 var matcher = &selgen.Sel{Op: '.'}
@@ -206,21 +207,31 @@ func HSkipMe() {
 		return inner(lc, l)
 	}
 	// the paths at which the skipped link is loaded in the unrestricted walk
-	var roots []string
+	var roots []datamodel.Path
 	g.Opens = nil
 	lcfg := *cfg
 	lcfg.LinkSystem.StorageReadOpener = func(lc linking.LinkContext, l datamodel.Link) (io.Reader, error) {
 		if l.Binary() == skip.Binary() {
-			roots = append(roots, lc.LinkPath.String())
+			roots = append(roots, lc.LinkPath)
 		}
 		return inner(lc, l)
 	}
 	walk(g, sel, &lcfg, nil)
 	r := walk(g, sel, &cfg2, nil)
 	nd.Assert(r.err == nil, "walk with a skipping loader succeeds")
-	under := func(p string) bool {
+	// is p at or below one of the roots? (segment-wise: keys may contain any byte)
+	under := func(p datamodel.Path) bool {
 		for _, rt := range roots {
-			if len(p) >= len(rt) && p[:len(rt)] == rt && (len(p) == len(rt) || p[len(rt)] == '/' || len(rt) == 0) {
+			if p.Len() < rt.Len() {
+				continue
+			}
+			all := true
+			for i, s := range rt.Segments() {
+				if !s.Equals(p.Segments()[i]) {
+					all = false
+				}
+			}
+			if all {
 				return true
 			}
 		}
@@ -228,7 +239,7 @@ func HSkipMe() {
 	}
 	var want []visit
 	for _, v := range u.vs {
-		if !under(v.p.String()) {
+		if !under(v.p) {
 			want = append(want, v)
 		}
 	}
